@@ -54,7 +54,7 @@ class CallMixin(ExprMixin):
     # ------------------------------------------------------------------ call expression
     def eval_call(self, e: ast.Call, st: State, ctx: Ctx):
         # spec builtins needing unevaluated arguments
-        if isinstance(e.func, ast.Name) and ctx.spec and e.func.id in ("old", "pre", "forall", "exists", "implies"):
+        if isinstance(e.func, ast.Name) and ctx.spec and e.func.id in ("old", "pre", "forall", "exists", "implies", "bound"):
             return [(st, self.spec_special(e, st, ctx))]
         if isinstance(e.func, ast.Name) and e.func.id == "super" and not e.args:
             self_v = self.lookup_name(self.first_param_name(ctx.func), st, ctx)
@@ -704,6 +704,7 @@ class CallMixin(ExprMixin):
         if c.ensures or "$noreturn" not in c.env:
             res = self.make_result(st, c, sctx)
             nctx = self.spec_ctx(fi, frame, (old, frame), {**ghosts, "result": res})
+            self.ghost_on_return(st, c, nctx)
             for cl in c.ensures:
                 st.assume(self.eval_clause(cl, st, nctx))
             if self.feasible(st):
